@@ -284,6 +284,43 @@ func opReadMisc(s int) storeOp {
 		mod: func(*StoreWorld) {}}
 }
 
+// Map iteration order as an environment answer (DESIGN.md 2.6): the default
+// answer is ascending keys; a deviation is another permutation, chosen for the
+// duration of one operation. Any permutation is legal under the Go
+// specification, so a violation under any of them is a real one.
+type mapOrder struct {
+	name string
+	perm func(n int) []int
+}
+
+var mapOrders = []mapOrder{
+	{"descending", func(n int) []int {
+		p := make([]int, n)
+		for i := range p {
+			p[i] = n - 1 - i
+		}
+		return p
+	}},
+	{"rotated", func(n int) []int {
+		p := make([]int, n)
+		for i := range p {
+			p[i] = (i + n/2 + 1) % n
+		}
+		return p
+	}},
+}
+
+func withOrder(o storeOp, ord mapOrder) storeOp {
+	inner := o.real
+	o.name = "[map order " + ord.name + "] " + o.name
+	o.real = func(st []store.Store, k []Kind, twin bool) {
+		SetMapOrder(ord.perm)
+		defer SetMapOrder(nil)
+		inner(st, k, twin)
+	}
+	return o
+}
+
 func (o storeOp) toOp() mc.Op[*StoreWorld] {
 	return mc.Op[*StoreWorld]{Name: o.name, Writes: o.writes, Do: func(w *StoreWorld) {
 		o.real(w.R, w.K, false)
